@@ -277,10 +277,11 @@ def bnd_alarms(tier, seed):
                 want_rows = [(a, AL[a][2] | (0x80 if isset[a] else 0)) for a in AL if enabled[a]]
                 if rows is None or [(r[1][1][1][0], r[1][0][1][0]) for r in rows] != want_rows:
                     fails.add("s5f7.enabled-alarms-with-state", dict(w, got=repr(rows)[:160], want=want_rows), "S5F8 does not list exactly the enabled alarms with their current set state")
-                for req in ([100], [101, 100], []):
+                # (999 is not an alarm of the equipment: the reply lists the requested alarms that exist, in request order - D37)
+                for req in ([100], [101, 100], [], [100, 999], [999], [999, 101, 999, 100]):
                     got = sess.ask(5, 5, ("L", [("U4", [a]) for a in req]))
                     rows = got[1] if isinstance(got, tuple) and got[0] == "L" else None
-                    ids = req or list(AL)
+                    ids = [a for a in req if a in AL] if req else list(AL)
                     want_rows = [(a, AL[a][2] | (0x80 if isset[a] else 0)) for a in ids]
                     if rows is None or [(r[1][1][1][0], r[1][0][1][0]) for r in rows] != want_rows:
                         fails.add("s5f5.requested-alarms-with-state", dict(w, request=req, got=repr(rows)[:160], want=want_rows), "S5F6 does not list exactly the requested alarms with their current set state")
